@@ -301,12 +301,13 @@ func (txProc *txProcessor) executingFailedTransaction(
 		return err
 	}
 
-	txProc.txFeeHandler.ProcessTransactionFee(txFee, big.NewInt(0), txHash)
-
 	err = txProc.accounts.SaveAccount(acntSnd)
 	if err != nil {
 		return err
 	}
+
+	// the fee is accumulated only after the sender was really charged: nothing can fail from this point on
+	txProc.txFeeHandler.ProcessTransactionFee(txFee, big.NewInt(0), txHash)
 
 	return process.ErrFailedTransaction
 }
